@@ -551,6 +551,21 @@ func ruleR101closures(c *Ctx) {
 							check(&ast.IndexExpr{X: t.Args[0]}, t.Pos())
 						}
 					}
+					// a method of the module that stores into its receiver, called on a captured variable
+					// (args.createFrame(st, cs) with `ca.values[i] = v` inside): the same store, one call away
+					if sel, ok := ast.Unparen(t.Fun).(*ast.SelectorExpr); ok {
+						if cal := Callee(info, t); cal != nil && cal.Pkg() != nil && strings.HasPrefix(cal.Pkg().Path(), modPath) {
+							if what := c.mutatesReceiver(cal, 0); what != "" {
+								if base := rootIdent(sel.X); base != nil {
+									if obj, ok := info.ObjectOf(base).(*types.Var); ok && !obj.IsField() && !(obj.Pos() >= lit.Pos() && obj.Pos() <= lit.End()) && obj.Parent() != obj.Pkg().Scope() {
+										k++
+										key := fmt.Sprintf("%s$lit%d#store[%d]:%s", gname, ordinalIn(gi.decl, lit, func(y ast.Node) bool { _, ok := y.(*ast.FuncLit); return ok }), k, base.Name)
+										c.Violation(key, t.Pos(), "the generated closure calls %s on %s, which lives in generator (compile time) scope, and that method %s: what one evaluation writes there is seen by later and by concurrent evaluations of the same function (the code of a call is no longer re-entrant)", cal.Name(), base.Name, what)
+									}
+								}
+							}
+						}
+					}
 					// a mutating method of a synchronisation type on a captured variable is a store as well:
 					// lastMethod.Store(..) on an atomic.Pointer, cache.Store(..) on a sync.Map, pool.Put(..)
 					if sel, ok := ast.Unparen(t.Fun).(*ast.SelectorExpr); ok {
@@ -745,4 +760,80 @@ func ruleR064(c *Ctx) {
 	if n == 0 {
 		c.Undecided("value#deep-traversals", token.NoPos, "no recursive traversal of language values found (deepEvalLists expected)")
 	}
+}
+
+// mutatesReceiver: the method (of the module) stores into a field of its
+// receiver or into an element reached through one, directly or through another
+// method of the receiver (two levels). It returns a description or "".
+func (c *Ctx) mutatesReceiver(fn *types.Func, depth int) string {
+	if fn == nil || fn.Pkg() == nil || depth > 2 {
+		return ""
+	}
+	pkg := c.Pkgs[fn.Pkg().Path()]
+	if pkg == nil {
+		return ""
+	}
+	fd := findFuncDecl(pkg, fn)
+	if fd == nil || fd.Body == nil || fd.Recv == nil || len(fd.Recv.List) != 1 || len(fd.Recv.List[0].Names) != 1 {
+		return ""
+	}
+	info := pkg.TypesInfo
+	recv := info.Defs[fd.Recv.List[0].Names[0]]
+	_, ptrRecv := recv.Type().(*types.Pointer)
+	res := ""
+	rooted := func(e ast.Expr) (string, bool) {
+		// recv.f = / recv.f[i] = / recv.f.g = ; for a value receiver only element stores through a field reach shared memory
+		e = ast.Unparen(e)
+		viaIndex := false
+		for {
+			switch t := e.(type) {
+			case *ast.IndexExpr:
+				viaIndex = true
+				e = ast.Unparen(t.X)
+				continue
+			case *ast.StarExpr:
+				e = ast.Unparen(t.X)
+				continue
+			case *ast.SelectorExpr:
+				if id, ok := ast.Unparen(t.X).(*ast.Ident); ok && info.ObjectOf(id) == recv {
+					if ptrRecv || viaIndex {
+						return t.Sel.Name, true
+					}
+					return "", false
+				}
+				e = ast.Unparen(t.X)
+				continue
+			}
+			return "", false
+		}
+	}
+	inspectNoLit(fd.Body, func(x ast.Node) bool {
+		if res != "" {
+			return false
+		}
+		switch t := x.(type) {
+		case *ast.AssignStmt:
+			for _, l := range t.Lhs {
+				if f, ok := rooted(l); ok {
+					res = "stores into its receiver (" + f + ")"
+				}
+			}
+		case *ast.IncDecStmt:
+			if f, ok := rooted(t.X); ok {
+				res = "stores into its receiver (" + f + ")"
+			}
+		case *ast.CallExpr:
+			if sel, ok := ast.Unparen(t.Fun).(*ast.SelectorExpr); ok {
+				if id, ok := ast.Unparen(sel.X).(*ast.Ident); ok && info.ObjectOf(id) == recv {
+					if cal := Callee(info, t); cal != nil && cal != fn {
+						if w := c.mutatesReceiver(cal, depth+1); w != "" {
+							res = w + " (through " + cal.Name() + ")"
+						}
+					}
+				}
+			}
+		}
+		return true
+	})
+	return res
 }
